@@ -231,7 +231,7 @@ class Ctx:
         return v
 
     # -- uninterpreted functions, Ackermannised
-    def app(self, fname, arg, axioms=None):
+    def app(self, fname, arg, axioms=None, name=None):
         """value of the uninterpreted real function ``fname`` at ``arg``.
 
         One fresh variable per syntactically distinct (simplified) argument plus
@@ -240,7 +240,7 @@ class Ctx:
         key = (fname, arg.sexpr())
         if key in self.apps:
             return self.apps[key][1]
-        v = self.fresh(fname)
+        v = self.fresh(fname) if name is None else z3.Real(name)
         lst = self.by_f.setdefault(fname, [])
         for (a2, v2) in lst:
             if is_const(arg) and is_const(a2):
